@@ -39,6 +39,7 @@ fn main() {
             "c10" => c10::run(&case),
             "c17lex" => c17::lex(&case),
             "lex" => lang::lex(&case),
+            "internsched" => lang::intern_schedule(&case),
             "libhist" => root::library_history(&case),
             "makeuse" => root::make_use_of(&case),
             "reset" => root::reset(&case),
